@@ -247,6 +247,13 @@ class TTAFamily(Family):
     name = "tta"
     options_menu = {"tta_threshold": [0.3, 0.4, 0.9]}
 
+    def __init__(self, spec):
+        super().__init__(spec)
+        # the boundary of the documented comparison: a threshold exactly equal to the record's own GC content
+        # (detection runs when gc >= threshold, so reuse at that threshold must keep the saved codons)
+        own_gc = fresh_record(spec).get_gc_content()
+        self.options_menu = {"tta_threshold": [0.3, 0.4, 0.9] + ([own_gc] if own_gc not in (0.3, 0.4, 0.9) else [])}
+
     def prepare(self, options):
         rec = fresh_record(self.spec)
         results = _detect(rec, "mixed")
